@@ -1103,6 +1103,7 @@ class XsdUnion(XsdSimpleType):
     def _parse(self) -> None:
         mt: Any
         self.member_types = []
+        child_types = []
 
         for child in self.elem:
             if child.tag != nm.XSD_ANNOTATION and not callable(child.tag):
@@ -1110,7 +1111,7 @@ class XsdUnion(XsdSimpleType):
                 if isinstance(mt, XMLSchemaParseError):
                     self.parse_error(mt)
                 else:
-                    self.member_types.append(mt)
+                    child_types.append(mt)
 
         if 'memberTypes' in self.elem.attrib:
             for name in self.elem.attrib['memberTypes'].split():
@@ -1141,6 +1142,9 @@ class XsdUnion(XsdSimpleType):
                     self.parse_error(msg % self.member_types)
 
                 self.member_types.append(mt)
+
+        # The types of the memberTypes attribute precede the simpleType children
+        self.member_types.extend(child_types)
 
         if not self.member_types:
             self.parse_error(_("missing xs:union type declarations"))
